@@ -249,7 +249,7 @@ theorem emLits_spans (cfg : Cfg) (hcs : cfg.caseSensitive = true) (hrp : cfg.rea
 
 theorem fsGroups_dirs_segs (fs : FS) (ds : List Name) (hds : ∀ d ∈ ds, CompOK d) (segs : List Name)
     (hsne : segs ≠ []) (hs : ∀ s ∈ segs, CompOK s) (tl : List Char) :
-    fsGroups fs (joinSl (ds ++ segs) ++ tl) [some (0, (joinSl ds).length)] none = true ↔
+    fsGroups fs (joinSl (ds ++ segs) ++ tl) [some (0, (joinSl ds).length)] = true ↔
       ∀ i, i < ds.length → fs.islink (joinSl (ds.take (i + 1))) = false := by
   by_cases hdse : ds = []
   · subst hdse
@@ -265,10 +265,10 @@ theorem fsGroups_dirs_segs (fs : FS) (ds : List Name) (hds : ∀ d ∈ ds, CompO
       cases hj : joinSl segs with
       | nil => exact absurd hj this
       | cons _ _ => simp
-    have hatEnd : (((joinSl ds).length : Int) == ((joinSl (ds ++ segs) ++ tl).length : Int) - 1) = false := by
+    have hatEnd : decide (((joinSl ds).length : Int) ≥ ((joinSl (ds ++ segs) ++ tl).length : Int) - 1) = false := by
       rw [hname]
       simp only [List.length_append, List.length_cons, List.length_nil]
-      simp only [beq_eq_false_iff_ne, ne_eq]
+      simp only [decide_eq_false_iff_not]
       omega
     have hstrip : stripSlash (joinSl ds) = joinSl ds :=
       stripSlash_id _ (joinSl_head ds hds) (joinSl_getLast ds hdse hds)
@@ -299,7 +299,7 @@ theorem fsMatch_emLits (fs : FS) (cfg : Cfg) (hcs : cfg.caseSensitive = true) (h
   constructor
   · rintro ⟨spans, hsp, hg⟩
     obtain ⟨ds, h1, h2, rfl⟩ := emLits_spans cfg hcs hrp segs hsne hs hok comps hne hc tl htl hnl spans hsp
-    have hg' : fsGroups fs (joinSl comps ++ tl) [some (0, (joinSl ds).length)] none = true := by
+    have hg' : fsGroups fs (joinSl comps ++ tl) [some (0, (joinSl ds).length)] = true := by
       rcases hg with hg | hg
       · cases hg
       · exact hg
